@@ -414,26 +414,87 @@ def flag_loop(loop: ast.AST) -> T.Optional[T.Tuple[str, bool, ast.AST]]:
     return a.targets[0].id, a.value.value, _any_of(loop.target, loop.iter, i.test, False)
 
 
-def helper_expression(fn: ast.AST) -> T.Optional[ast.AST]:
-    """The expression a helper computes, when its body is `return E`, or the search loop
-    `for t in I: if COND: return <b>` + `return <not b>` (= any / not any), or flag = c; flag loop; return flag."""
-    body = [st for st in getattr(fn, 'body', []) if not (isinstance(st, ast.Expr) and isinstance(st.value, ast.Constant))]
-    if len(body) == 1 and isinstance(body[0], ast.Return) and body[0].value is not None:
-        return body[0].value
-    if len(body) == 2 and isinstance(body[0], ast.For) and isinstance(body[1], ast.Return) and isinstance(body[1].value, ast.Constant) \
-            and isinstance(body[1].value.value, bool):
-        lp = body[0]
-        if not lp.orelse and len(lp.body) == 1 and isinstance(lp.body[0], ast.If) and not lp.body[0].orelse and len(lp.body[0].body) == 1:
-            r = lp.body[0].body[0]
-            if isinstance(r, ast.Return) and isinstance(r.value, ast.Constant) and isinstance(r.value.value, bool) and r.value.value != body[1].value.value:
-                return _any_of(lp.target, lp.iter, lp.body[0].test, negate=not r.value.value)
-    if len(body) == 3 and isinstance(body[0], ast.Assign) and isinstance(body[2], ast.Return) and isinstance(body[2].value, ast.Name):
-        fl = flag_loop(body[1])
-        a = body[0]
-        if fl and len(a.targets) == 1 and isinstance(a.targets[0], ast.Name) and a.targets[0].id == fl[0] == body[2].value.id \
-                and isinstance(a.value, ast.Constant) and a.value.value is (not fl[1]):
-            return fl[2] if fl[1] else ast.UnaryOp(op=ast.Not(), operand=fl[2])
+def _block_expr(stmts: T.List[ast.stmt], binds: T.Dict[str, ast.AST], depth: int = 0) -> T.Optional[ast.AST]:
+    """The value a statement list returns, as one expression: pure local bindings are substituted, `if` with returns
+    becomes a conditional expression, the search loop / flag loop becomes any().  None when the block does anything else."""
+    if depth > 6:
+        return None
+    stmts = [st for st in stmts if not (isinstance(st, ast.Expr) and isinstance(st.value, ast.Constant)) and not isinstance(st, ast.Pass)]
+    for i, st in enumerate(stmts):
+        rest = stmts[i + 1:]
+        if isinstance(st, ast.Return):
+            return subst(st.value, binds) if st.value is not None else ast.Constant(value=None)
+        if isinstance(st, ast.AnnAssign) and st.value is None:
+            continue
+        if isinstance(st, (ast.Assign, ast.AnnAssign)):
+            tg = st.targets[0] if isinstance(st, ast.Assign) and len(st.targets) == 1 else (st.target if isinstance(st, ast.AnnAssign) else None)
+            if isinstance(tg, ast.Name) and st.value is not None and _bindable(st.value):
+                binds = dict(binds)
+                binds[tg.id] = subst(st.value, binds)
+                continue
+            return None
+        if isinstance(st, ast.If):
+            a = _block_expr(st.body + rest, binds, depth + 1)
+            b = _block_expr(st.orelse + rest, binds, depth + 1)
+            if a is None or b is None:
+                return None
+            return ast.IfExp(test=subst(st.test, binds), body=a, orelse=b)
+        if isinstance(st, ast.For):
+            # search loop: for t in I: if COND: return <b>   ...   return <not b>
+            if not st.orelse and len(st.body) == 1 and isinstance(st.body[0], ast.If) and not st.body[0].orelse and len(st.body[0].body) == 1 \
+                    and isinstance(st.body[0].body[0], ast.Return) and isinstance(st.body[0].body[0].value, ast.Constant) \
+                    and isinstance(st.body[0].body[0].value.value, bool) and len(rest) == 1 and isinstance(rest[0], ast.Return) \
+                    and isinstance(rest[0].value, ast.Constant) and rest[0].value.value is (not st.body[0].body[0].value.value):
+                return _any_of(st.target, subst(st.iter, binds), subst(st.body[0].test, binds), negate=not st.body[0].body[0].value.value)
+            fl = flag_loop(st)
+            init = binds.get(fl[0]) if fl else None
+            if fl and isinstance(init, ast.Constant) and init.value is (not fl[1]):
+                e = subst(fl[2], {k: v for k, v in binds.items() if k != fl[0]})
+                binds = dict(binds)
+                binds[fl[0]] = e if fl[1] else ast.UnaryOp(op=ast.Not(), operand=e)
+                continue
+            return None
+        return None
     return None
+
+
+def builder_expression(fn: ast.AST) -> T.Optional[ast.AST]:
+    """`x = Ctor(...); x.f = ...; return x`: the constructor call (the stores on the fresh object are judged where they stand)."""
+    body = [st for st in getattr(fn, 'body', []) if not (isinstance(st, ast.Expr) and isinstance(st.value, ast.Constant))]
+    if len(body) >= 2 and isinstance(body[0], ast.Assign) and len(body[0].targets) == 1 and isinstance(body[0].targets[0], ast.Name) \
+            and isinstance(body[0].value, ast.Call) and isinstance(body[-1], ast.Return) and isinstance(body[-1].value, ast.Name) \
+            and body[-1].value.id == body[0].targets[0].id:
+        x = body[0].targets[0].id
+        for st in body[1:-1]:
+            if not (isinstance(st, ast.Assign) and all(isinstance(t, ast.Attribute) and isinstance(t.value, ast.Name) and t.value.id == x for t in st.targets)):
+                return None
+        return body[0].value
+    return None
+
+
+def helper_expression(fn: ast.AST) -> T.Optional[ast.AST]:
+    """The expression a helper computes (see _block_expr), or the constructor call of a builder helper."""
+    e = _block_expr(list(getattr(fn, 'body', [])), {})
+    if e is None:
+        e = builder_expression(fn)
+    return e
+
+
+def bind_args(fn: ast.AST, call: ast.Call, skip_first: bool) -> T.Optional[T.Dict[str, ast.AST]]:
+    """Arguments of a call bound to the callee's parameter names (positional index or keyword)."""
+    a = fn.args  # type: ignore[attr-defined]
+    params = [x.arg for x in a.posonlyargs + a.args]
+    if skip_first and params:
+        params = params[1:]
+    if any(isinstance(x, ast.Starred) for x in call.args) or len(call.args) > len(params):
+        return None
+    m: T.Dict[str, ast.AST] = dict(zip(params, call.args))
+    kwonly = [x.arg for x in a.kwonlyargs]
+    for k in call.keywords:
+        if k.arg is None or k.arg in m or k.arg not in params + kwonly:
+            return None
+        m[k.arg] = k.value
+    return m
 
 
 # set by the rule pack for the class being analysed: Call -> inlined expression (parameters replaced by the arguments) or None
@@ -445,19 +506,31 @@ def inline_call(fn: ast.AST, call: ast.Call, skip_first: bool) -> T.Optional[ast
     if e is None:
         return None
     a = fn.args  # type: ignore[attr-defined]
-    params = [x.arg for x in a.posonlyargs + a.args]
-    if skip_first and params:
-        params = params[1:]
-    if a.vararg or a.kwarg or any(isinstance(x, ast.Starred) for x in call.args) or len(call.args) > len(params):
+    if a.vararg or a.kwarg:
         return None
-    m: T.Dict[str, ast.AST] = dict(zip(params, call.args))
-    for k in call.keywords:
-        if k.arg is None or k.arg in m:
-            return None
-        m[k.arg] = k.value
-    if set(params) - set(m):
+    m = bind_args(fn, call, skip_first)
+    if m is None:
         return None
+    params = [x.arg for x in a.posonlyargs + a.args][1 if skip_first else 0:]
+    # parameters with defaults
+    defaults = dict(zip(reversed([x.arg for x in a.posonlyargs + a.args]), reversed(a.defaults)))
+    for prm in params:
+        if prm not in m:
+            if prm in defaults:
+                m[prm] = defaults[prm]
+            else:
+                return None
     return subst(e, m)
+
+
+def simplify(e: ast.AST, ev: 'Evaluator') -> ast.AST:
+    """Resolve conditional expressions whose test is decided in the world of the evaluator."""
+    while isinstance(e, ast.IfExp):
+        t = truth(ev.ev(e.test))
+        if t is None:
+            break
+        e = e.body if t else e.orelse
+    return e
 
 
 # ---------------------------------------------------------------------------
